@@ -147,6 +147,67 @@ func (fi *FuncInfo) ensureFacts() {
 	}
 }
 
+// liftFact carries a fact over the edge p -> b into a join block: a load in the fact that denotes the CURRENT
+// value of its location at the end of p (its version is the set of definitions reaching the end of p) denotes, along
+// this edge, the current value at the start of b as well; it is re-versioned to the definitions reaching b, so that
+// the same condition established on two paths with different memory histories (if c { x -= k }; ...) meets itself.
+func (fi *FuncInfo) liftFact(f Fact, p, b *ssa.BasicBlock) Fact {
+	fi.ensureMem()
+	key := f.Key() + "|" + itoa(p.Index) + ">" + itoa(b.Index)
+	if fi.liftCache == nil {
+		fi.liftCache = map[string]Fact{}
+	}
+	if g, ok := fi.liftCache[key]; ok {
+		return g
+	}
+	var out map[*MemDef]bool
+	version := func(reach map[*MemDef]bool, cls Class, typ types.Type) string {
+		var ids []string
+		for d := range reach {
+			if fi.affects(d.Cls, cls, typ) {
+				ids = append(ids, d.ID)
+			}
+		}
+		sort.Strings(ids)
+		return strings.Join(ids, ",")
+	}
+	changed := false
+	nt := f.T.Subst(func(t *Term) *Term {
+		if t.K != KLoad || t.V == "" || strings.HasPrefix(t.V, "@") || t.Typ == nil {
+			return nil
+		}
+		ld, ok := t.Val.(*ssa.UnOp)
+		if !ok || ld.Parent() != fi.Fn {
+			return nil
+		}
+		cls := fi.AddrClass(ld.X)
+		if out == nil {
+			out = map[*MemDef]bool{}
+			for d := range fi.reachIn[p] {
+				out[d] = true
+			}
+			for _, ins := range p.Instrs {
+				fi.applyDefs(out, ins)
+			}
+		}
+		if version(out, cls, t.Typ) != t.V {
+			return nil // the fact is about an older value
+		}
+		nv := version(fi.reachIn[b], cls, t.Typ)
+		if nv == t.V {
+			return nil
+		}
+		changed = true
+		return &Term{K: KLoad, A: t.A, V: nv, Typ: t.Typ, Val: t.Val}
+	})
+	g := f
+	if changed {
+		g = Fact{T: nt, Neg: f.Neg}
+	}
+	fi.liftCache[key] = g
+	return g
+}
+
 // runFactsIteration computes factsIn from edgeFacts (descending must-dataflow).
 func (fi *FuncInfo) runFactsIteration() {
 	fn := fi.Fn
@@ -181,10 +242,18 @@ func (fi *FuncInfo) runFactsIteration() {
 					continue
 				}
 				cand := FactSet{}
+				lift := len(b.Preds) >= 2
 				for k, f := range fi.factsIn[p] {
+					if lift {
+						f = fi.liftFact(f, p, b)
+						k = f.Key()
+					}
 					cand[k] = f
 				}
 				for _, f := range fi.edgeFacts[[2]int{p.Index, b.Index}] {
+					if lift {
+						f = fi.liftFact(f, p, b)
+					}
 					cand[f.Key()] = f
 				}
 				if first {
@@ -394,6 +463,18 @@ func (p *Program) buildRetSummary(fn *ssa.Function, depth int) *RetSummary {
 				extra = ti
 			}
 			exported := fi.exportFacts(ret, i, extra...)
+			// what the other results are when this one reports success: $retj == term over the interface vocabulary
+			for j, rv := range ret.Results {
+				if j == i {
+					continue
+				}
+				rt := fi.Term(rv)
+				if rt.K == KConst || !exportable(rt) || rt.Contains(func(x *Term) bool { return x.K == KLoad }) {
+					continue
+				}
+				eq := Fact{T: normalize(mk(KBin, "==", nil, nil, mk(KRet, itoa(j), rv.Type(), nil), rt))}
+				exported[eq.Key()] = eq
+			}
 			if first {
 				acc, first = exported, false
 			} else {
@@ -487,6 +568,16 @@ func (fi *FuncInfo) trueImplies(v ssa.Value, depth int) (out []Fact, possible bo
 		if x.Op == token.NOT {
 			f := mkFact(fi.Term(x.X), true)
 			out = append(out, f)
+			// !(a || b) is true iff a and b are both false
+			if sub, ok := fi.falseImplies(x.X, depth+1); ok {
+				for _, sf := range sub {
+					if sf.Key() != f.Key() {
+						out = append(out, sf)
+					}
+				}
+			} else {
+				return nil, false
+			}
 			return out, true
 		}
 	}
@@ -562,7 +653,17 @@ func (fi *FuncInfo) falseImplies(v ssa.Value, depth int) (out []Fact, possible b
 	case *ssa.UnOp:
 		if x.Op == token.NOT {
 			f := mkFact(fi.Term(x.X), false)
-			return []Fact{f}, true
+			out = append(out, f)
+			if sub, ok := fi.trueImplies(x.X, depth+1); ok {
+				for _, sf := range sub {
+					if sf.Key() != f.Key() {
+						out = append(out, sf)
+					}
+				}
+			} else {
+				return nil, false
+			}
+			return out, true
 		}
 	}
 	return []Fact{mkFact(t, true)}, true
@@ -810,12 +911,37 @@ func (p *Program) buildValueSummary(fn *ssa.Function) *Term {
 					return nil
 				}
 			}
+		case *ssa.Defer:
+			// defer mu.Unlock(): the section ends at the return
+			if _, _, isLock := LockOp(&x.Call); !isLock {
+				return nil
+			}
+		case *ssa.RunDefers:
 		case *ssa.Alloc:
 		case *ssa.Store:
 			// the spill of a parameter into its local (struct parameters whose fields are addressed), or the
 			// initialisation of a field of a local struct that is the function's result (a struct literal)
-			if _, isAl := x.Addr.(*ssa.Alloc); isAl {
+			if al, isAl := x.Addr.(*ssa.Alloc); isAl {
 				if _, isParam := x.Val.(*ssa.Parameter); isParam {
+					continue
+				}
+				// the spill of the result around a deferred call (*t0 = v; rundefers; return *t0): a local that is only
+				// stored to and loaded
+				private := !al.Heap
+				if refs := al.Referrers(); refs != nil {
+					for _, r := range *refs {
+						switch y := r.(type) {
+						case *ssa.Store:
+							if y.Addr != ssa.Value(al) {
+								private = false
+							}
+						case *ssa.UnOp, *ssa.DebugRef:
+						default:
+							private = false
+						}
+					}
+				}
+				if private {
 					continue
 				}
 			}
@@ -1030,6 +1156,112 @@ func (fi *FuncInfo) extractTerm(call *ssa.Call, i int) *Term {
 		}
 	}
 	return mk(KExt, itoa(i), nil, nil, fi.Term(call))
+}
+
+// Outcome is one way a function returns: the result terms and the facts that hold then. A return whose results are
+// phis of its own block (the single-exit form: var r T; var err error; if .. { r = .. } else { err = .. }; return r, err)
+// is split into one outcome per incoming edge.
+type Outcome struct {
+	Ret     *ssa.Return
+	Results []*Term
+	Facts   FactSet
+}
+
+func (fi *FuncInfo) Outcomes() []Outcome {
+	var out []Outcome
+	fn := fi.Fn
+	for _, b := range fn.Blocks {
+		if len(b.Instrs) == 0 || b == fn.Recover {
+			continue
+		}
+		ret, ok := b.Instrs[len(b.Instrs)-1].(*ssa.Return)
+		if !ok {
+			continue
+		}
+		split := false
+		for _, r := range ret.Results {
+			if ph, ok := r.(*ssa.Phi); ok && ph.Block() == b {
+				split = true
+			}
+		}
+		// only phis (and the return) in the block, so nothing between the join and the return changes the facts
+		for _, in := range b.Instrs[:len(b.Instrs)-1] {
+			if _, isPhi := in.(*ssa.Phi); !isPhi {
+				split = false
+			}
+		}
+		if !split {
+			o := Outcome{Ret: ret, Facts: fi.FactsAt(ret)}
+			for _, r := range ret.Results {
+				o.Results = append(o.Results, fi.Term(r))
+			}
+			out = append(out, o)
+			continue
+		}
+		for i, pred := range b.Preds {
+			o := Outcome{Ret: ret, Facts: FactSet{}}
+			if n := len(pred.Instrs); n > 0 {
+				for k, f := range fi.FactsAt(pred.Instrs[n-1]) {
+					o.Facts[k] = f
+				}
+			}
+			for _, f := range fi.EdgeFacts(pred, b) {
+				o.Facts[f.Key()] = f
+			}
+			for _, r := range ret.Results {
+				if ph, ok := r.(*ssa.Phi); ok && ph.Block() == b {
+					o.Results = append(o.Results, fi.Term(ph.Edges[i]))
+				} else {
+					o.Results = append(o.Results, fi.Term(r))
+				}
+			}
+			out = append(out, o)
+		}
+	}
+	return out
+}
+
+// RefineAt rewrites results of calls to repository helpers inside t by what the helper's return summary says they
+// equal, given the facts that hold at instruction at (v, ok := helper(x); if !ok { continue }; use(v): at the use, v is
+// the term the helper returns together with ok == true).
+func (fi *FuncInfo) RefineAt(t *Term, at ssa.Instruction) *Term {
+	facts := fi.FactsAt(at)
+	for round := 0; round < 3; round++ {
+		changed := false
+		nt := t.Subst(func(x *Term) *Term {
+			callT, _ := callOfResult(x)
+			if callT == nil || callT.K != KCall {
+				return nil
+			}
+			call, ok := callT.Val.(*ssa.Call)
+			if !ok {
+				return nil
+			}
+			if sc := call.Call.StaticCallee(); sc == nil || !IsRepoFunc(sc) {
+				return nil
+			}
+			for _, f := range facts {
+				if f.Neg || f.T.K != KBin || f.T.S != "==" {
+					continue
+				}
+				for k := 0; k < 2; k++ {
+					if f.T.A[k].Key() == x.Key() && !f.T.A[1-k].Contains(func(y *Term) bool { return y.Key() == callT.Key() }) {
+						if c, isC := f.T.A[1-k].IsConst(); isC && (c == "nil" || c == "true" || c == "false") {
+							continue
+						}
+						changed = true
+						return f.T.A[1-k]
+					}
+				}
+			}
+			return nil
+		})
+		if !changed {
+			break
+		}
+		t = nt
+	}
+	return t
 }
 
 // KOr is the kind of a disjunction of two facts (operands are sorted).
